@@ -258,7 +258,7 @@ def vec_cases(seed, chunk, n, tier):
 
 
 def run(ctx):
-    n = 1500 if ctx.tier == "quick" else 30000
+    n = 8000 if ctx.tier == "quick" else 50000
     stream.run_stream(ctx, "dense", "harness.props.c08", "gen_cases", n, per_chunk=100,
                       canon_kw=dict(drop_zero=True))
     nv = 64 if ctx.tier == "quick" else 1600
